@@ -38,6 +38,8 @@ CLAIMED = {
          "static analysis: may-panic scan + path-sensitive reflect-precondition check + decision-table extraction vs. specification table", "DESIGN.md §5 C15"),
  "C16": ("Sound static decision that neither Bind can panic (reflect preconditions implied by path facts), that the identity copy happens exactly under type identity and copies the value itself, that otherwise json.Unmarshal receives exactly json.Marshal's output and the destination and both errors are returned, that invalid inputs end in errors, that Bind writes nothing but the destination, and that both Binds have the same outcome classes. encoding/json itself is the reference.",
          "static analysis: may-panic scan + path-sensitive reflect-precondition and Marshal->Unmarshal provenance check + sibling comparison", "DESIGN.md §5 C16"),
+ "C17": ("Sound static decision, by compositional symbolic exploration of every producer/consumer adapter pair of function-style nodes, that the Result a phase function receives carries exactly the value the previous phase's function returned, that an error Result from exec reaches post as the identical Result (no second wrap, no strip), that batch items reach exec unwrapped, and that the Any-style wrappers of all three construction forms meet one specification (hence are interchangeable). Assumes payloads are not themselves Results (A5).",
+         "static analysis: compositional symbolic exploration of adapter pairs + wrapper summaries vs. specification", "DESIGN.md §5 C17"),
  "C18": ("Sound static decision that every nil-error return of Run (single, batch, empty batch) carries a provably non-empty action.",
          "static analysis: path-sensitive return-predicate analysis over go/ssa", "DESIGN.md §5 C18"),
  "C20": ("Sound static decision of the structural cause of the timing statement: a wait event with the node's GetWait() duration lies exactly between a failed attempt and the next (unless wait<=0 is established), none before the first or after the last attempt, every wait selects on ctx.Done(), no time.Sleep. Elapsed time itself is the time package's contract.",
